@@ -48,3 +48,11 @@ F36_rerun_branch_above_join = _history_is("join-rerun/task1")
 F37_late_failure_marked_terminal = _history_is("remediated/b-reports-first")
 F38_resume_paused_items = _history_is("items-resume/first-report-requested")
 F39_completion_on_resume_term = _history_is("pause-before-last-report/unreachable-join")
+
+
+def _hunt(fid):
+    return _history_is("hunt/%s" % fid)
+
+
+for _f in ("F53", "F54", "F55", "F56", "F57", "F58", "F59", "F60", "F61", "F62", "F63", "F64", "F65", "F66", "F67", "F68"):
+    globals()["%s_hunt_witness" % _f] = _hunt(_f)
